@@ -560,7 +560,7 @@ def _native_mutators(tier="quick", seed=0):
         label = os.path.basename(f) if f else "default template"
         for part in prs.part.package.iter_parts():
             root = getattr(part, "_element", None)
-            if root is None or [m for m in validate_root(root) if "not expected" in m]:
+            if root is None or [m for m in validate_root(root, None) if "not expected" in m]:
                 continue  # not an XML part, or a child is already out of place (outside the property's premise)
             for el in list(root.iter()):
                 if not isinstance(el.tag, str):
@@ -592,10 +592,64 @@ def _native_mutators(tier="quick", seed=0):
                         continue  # the helper does not apply to this element in this state
                     # the property is about where a child lands: a container that is still empty (its caller fills it) or an attribute
                     # still to be set is not a misplaced child
-                    v = [m for m in validate_root(r2) if "not expected" in m]
+                    v = [m for m in validate_root(r2, None) if "not expected" in m]
                     if v:
                         found.setdefault("%s.%s" % (cname, meth), "%s, part %s: <%s> with children %s, after %s(): %s -- %s" % (
                             label, part.partname, el.tag.split("}")[-1], kids_before, meth, [c.tag.split("}")[-1] for c in el2 if isinstance(c.tag, str)], v[:1]))
+
+    # hand-written property setters of the element classes, each with a few representative values, applied once and then once more
+    # (a setter that creates a bare child meets that child on the second call)
+    def setters(cls):
+        out = []
+        for k in cls.__mro__:
+            if not k.__module__.startswith("pptx.oxml") or k.__name__ in ("BaseOxmlElement", "_OxmlElementBase"):
+                continue
+            for n, f in k.__dict__.items():
+                if isinstance(f, property) and f.fset is not None and getattr(f.fset, "__module__", None) == k.__module__ and not any(n == m for _, m in out):
+                    out.append((k.__name__, n))
+        return out
+
+    SET_VALUES = [True, False, None, 0, 1, 2, 0.5, "x", 914400]
+    ntried_set = 0
+    for f in [None] + files:
+        prs = Presentation(f) if f else Presentation()
+        label = os.path.basename(f) if f else "default template"
+        for part in prs.part.package.iter_parts():
+            root = getattr(part, "_element", None)
+            if root is None or [m for m in validate_root(root, None) if "not expected" in m]:
+                continue
+            for el in list(root.iter()):
+                if not isinstance(el.tag, str):
+                    continue
+                for cname, prop in setters(type(el)):
+                    for val in SET_VALUES:
+                        # one element per (class, property, value, children present): the same class serves different contexts
+                        key = (type(el).__name__, prop, repr(val), tuple(sorted({c.tag for c in el if isinstance(c.tag, str)})))
+                        if count.get(key, 0) >= (1 if tier == "quick" else 3):
+                            continue
+                        count[key] = count.get(key, 0) + 1
+                        evals += 1
+                        r2 = copy.deepcopy(root)
+                        idxs, cur = [], el
+                        while cur is not root:
+                            par = cur.getparent()
+                            idxs.append(par.index(cur))
+                            cur = par
+                        el2 = r2
+                        for i in reversed(idxs):
+                            el2 = el2[i]
+                        kids_before = [c.tag.split("}")[-1] for c in el2 if isinstance(c.tag, str)]
+                        for times in (1, 2):
+                            try:
+                                setattr(el2, prop, val)
+                            except Exception:
+                                break  # the value is refused, or the setter does not apply to this element in this state
+                            ntried_set += 1
+                            v = [m for m in validate_root(r2, None) if "not expected" in m]
+                            if v:
+                                found.setdefault("%s.%s=" % (cname, prop), "%s, part %s: <%s> with children %s, after %s = %r (%d time(s)): %s -- %s" % (
+                                    label, part.partname, el.tag.split("}")[-1], kids_before, prop, val, times, [c.tag.split("}")[-1] for c in el2 if isinstance(c.tag, str)], v[:1]))
+                                break
 
     def rec(name, bad):
         r = {"name": name, "base": name, "kind": "bounded", "status": "refuted" if bad else "discharged", "backend": "native", "time": 0, "path": 0}
